@@ -20,7 +20,7 @@ func init() {
 		Rule: "case = (type mixing nocopy and ordinary string/binary fields, plain and optional-pointer forms, nested structs at field / list element / map value position, value with lengths from 0 to 70000, reference-encoded message in random wire order, buffer right-aligned against a guard page). Oracle: every nocopy field is exactly (address, len, cap) the value's extent in the input as located by the schema-less parser; zero-length values and every other piece of the decoded object (memory walker) lie outside the buffer; flipping buffer bytes outside nocopy extents leaves the value unchanged, flipping bytes inside shows through that field. distinct = distinct (type shape, set of value lengths classes); non-trivial = at least one non-empty nocopy value and one ordinary string/binary",
 		Plan: func(tier string) []BuildPlan {
 			if tier == "thorough" {
-				return []BuildPlan{{"plain", 100000}, {"checkptr", 30000}, {"asan", 10000}}
+				return []BuildPlan{{"plain", 500000}, {"checkptr", 150000}, {"asan", 40000}}
 			}
 			return []BuildPlan{{"plain", 3000}, {"checkptr", 1500}, {"asan", 500}}
 		},
